@@ -45,7 +45,7 @@ AA = imp(A, A)
 
 def bounds(tier):
     return tier_param(tier, {'depth': 3, 'nested_items': 2, 'depth3_menu': 'flat items, <=1 citation, stated sequent in {none, |- false}'},
-                      {'depth': 4, 'nested_items': 2, 'depth3_menu': 'full', 'depth4_menu': 'flat items, <=1 citation'})
+                      {'depth': 3, 'nested_items': 2, 'depth3_menu': 'full (flat items with every citation list and every stated sequent, and blocks)'})
 
 
 # ---------------------------------------------------------------------------- item descriptions
@@ -578,7 +578,7 @@ def setup(tier):
 
 
 def explore(tier, shard, nshards, agg):
-    depth = tier_param(tier, 3, 4)
+    depth = 3          # thorough: the full item menu also at depth 3 (a fourth level did not finish within 50 minutes)
     import sys, os
     debug = os.environ.get('VERIF_DEBUG')
     frontier = [()]
